@@ -3,6 +3,7 @@ import WebAuthnModel.Model.AuthData
 import WebAuthnModel.Model.Cose
 import WebAuthnModel.Generated.Core
 import WebAuthnModel.Generated.TpmAndroid
+import WebAuthnModel.Model.KeyDesc
 /-
   The seven attestation statement verification procedures (attestation_statement*.go, certificate.go).
   Dependencies (x509, asn1, go-tpm, go-jose, crypto) are oracles; everything the repository itself decides —
@@ -123,7 +124,7 @@ def certAAGUID (c : CertView) : Prog AaguidExt := do
   | none => pure .absent
   | some e =>
     if e.critical then pure .critical else
-    match ← askBytes (.asn1OctetString e.value) with
+    match KeyDesc.octetStringExact e.value with
     | none => pure .invalid
     | some b => if b.length = Generated.Core.aaguidSize then pure (.value b) else pure .invalid
 
@@ -208,14 +209,14 @@ def verifyAndroidKey (o : AttObj) (cdHash : Bytes) : Prog (Option Result) := do
         else match findExt c Generated.Core.oidAndroidKey with
           | none => pure none
           | some e =>
-            match ← query (.keyDescription e.value) with
-            | .keyDesc kd =>
+            match KeyDesc.view e.value with
+            | some kd =>
               if kd.challenge ≠ cdHash then pure none
               else if kd.swAllApplications || kd.teeAllApplications then pure none
               else if kd.teeOrigin ≠ (Generated.Android.keyOriginGenerated : Int) then pure none
               else if !kd.teePurpose.contains (Generated.Android.keyMasterPurposeSign : Int) then pure none
               else pure (some ⟨"Basic", der :: rest.map (·.1)⟩)
-            | _ => pure none
+            | none => pure none
   | _ => pure none
 
 /-! ### apple -/
@@ -232,7 +233,7 @@ def verifyApple (o : AttObj) (cdHash : Bytes) : Prog (Option Result) := do
         match findExt c Generated.Core.oidAppleNonce with
         | none => pure none
         | some e =>
-          match ← askBytes (.appleNonce e.value) with
+          match KeyDesc.appleNonce e.value with
           | none => pure none
           | some certNonce =>
             if nonce ≠ certNonce then pure none
